@@ -957,8 +957,8 @@ class KernelEval:
         return self._resolved(fr, ("const", r[1], r[2], node.args[0]), text)
       if isinstance(node, (ast.Name, ast.Attribute)):
         rr = self.sm.resolve_name(r[1], node)
-        if rr is not None and rr[0] != "const":
-          return self._resolved(fr, rr, text)
+        if rr is not None and rr[0] == "ext":
+          return T("cv", f"{r[1]}.{r[2]}")
         if rr is not None:
           return self._resolved(fr, rr, text)
       return T("cv", f"{r[1]}.{r[2]}")
